@@ -16,7 +16,7 @@ from pv.runner import Res
 
 ID = "C18"
 RULE = ("generated fragment-F actions x injective renamings of their parameters (fresh names, swaps and cycles of the "
-        "existing names, chains ?a->?b->?c->fresh, mixtures; the map listing the parameters in their own or (40 %) another order) x actions as parsed or (40 %) with literals over the same parameters re-made by Predicate.copy(), renamed fresh from the parser or (40 %) after having been grounded and printed (30 % of those: a deep copy taken then) x probes (call, state).  Non-trivial = the map's new "
+        "existing names, chains ?a->?b->?c->fresh, mixtures; the map listing the parameters in their own or (40 %) another order) x actions as parsed or (40 %) with literals over the same parameters re-made by Predicate.copy(), renamed fresh from the parser or (40 %) after having been grounded and printed (30 % of those: a deep copy taken then), in one call or (25 %) in two through intermediate names x probes (call, state).  Non-trivial = the map's new "
         "names overlap the old ones and the action has >= 2 parameters and a binary atom or function term over "
         "parameters.  Distinct by (action, map).")
 ASSUMPTIONS = ["maps cover the action's parameters only (as the repository's callers do); constants and quantified "
@@ -118,12 +118,19 @@ def check_case(case):
         oks, shared = lib_call(share_predicates, renamed)
         if not oks:
             raise RuntimeError(f"share_predicates failed: {shared!r}")
-    okr, err = lib_call(renamed.change_signature, dict(m))   # insertion order of the map = order of case["rename"]
+    if case.get("two_step"):
+        # the same renaming done in two steps through intermediate names (?m0, ?m1, ...): a schema can be renamed again
+        mid = {k: f"?m{i}" for i, (k, _) in enumerate(case["rename"])}
+        okr, err = lib_call(renamed.change_signature, dict(mid))
+        if okr:
+            okr, err = lib_call(renamed.change_signature, {mid[k]: v for k, v in case["rename"]})
+    else:
+        okr, err = lib_call(renamed.change_signature, dict(m))   # insertion order of the map = order of case["rename"]
     binary = any(x and isinstance(x[0], str) and x[0] not in c01.KEYWORDS and sum(1 for t in x[1:] if isinstance(t, str) and t in pnames) >= 2
                  for f in (a["pre"] or [], a["eff"]) for x in pddl.walk(f))
     reordered = [k for k, _ in case["rename"]] != pnames
     res.classes = [("overlap" if overlap(m) else "fresh") + ("+binary" if binary else "") + ("+map-reordered" if reordered else "")
-                   + ("+shared-literals" if shared else "") + ("+used-first" if case.get("use_first") else "")]
+                   + ("+shared-literals" if shared else "") + ("+used-first" if case.get("use_first") else "") + ("+two-step" if case.get("two_step") else "")]
     res.nontrivial = overlap(m) and len(pnames) >= 2 and binary
     res.key = json.dumps([a, case["rename"]], sort_keys=True)
     if not okr:
@@ -222,6 +229,7 @@ def gen(ch, tier):
         case["rename"] = ch.shuffle(case["rename"])      # the map lists the parameters in another order
     case["share"] = ch.flag(0.4)
     case["use_first"] = ch.flag(0.4)
+    case["two_step"] = ch.flag(0.25)
     case["rename_copy"] = ch.flag(0.3)
     return case
 
